@@ -608,6 +608,20 @@ func (c01) Run(ctx *Ctx, ci interface{}) (o Outcome) {
 				applied = false
 				break
 			}
+			if op.I%7 == 0 && n > 0 && n <= 6 && !m.dupNames() {
+				// the alignment appended to itself: every row once more, under the duplicate-name policy
+				was := append([]HRow{}, m.rows...)
+				for _, r := range was {
+					m.add(r.Name, r.Seq)
+				}
+				if err := al.Append(al); err != nil {
+					trail = append(trail, fmtOp(op))
+					fail("add-verdict", "Append of an alignment to itself returns %v", err)
+					return
+				}
+				o.Add("probe_alignment_appended_to_itself", 1)
+				break
+			}
 			other := align.NewAlign(align.NUCLEOTIDS)
 			l := m.length()
 			if l < 0 {
